@@ -90,6 +90,7 @@ fn gen_op_kind(rng: &mut Rng, n_objs: usize, allow_abort: bool) -> OpKind {
       };
       OpKind::CloneThen {
         then: Box::new(then),
+        orphan: None,
       }
     }
   }
@@ -352,6 +353,7 @@ fn gen_directed(rng: &mut Rng, cfg: &GenCfg, ids: &mut Ids) -> Scenario {
           obj: 0,
           kind: OpKind::CloneThen {
             then: Box::new(rng.pick(&observers).clone()),
+            orphan: None,
           },
         }],
       ];
@@ -500,6 +502,7 @@ fn gen_directed(rng: &mut Rng, cfg: &GenCfg, ids: &mut Ids) -> Scenario {
         },
         OpKind::CloneThen {
           then: Box::new(OpKind::Source),
+          orphan: None,
         },
       ];
       Scenario {
@@ -1321,6 +1324,15 @@ pub fn check_conc(
 /// objects that contain a user-defined child source, and some stream ops on
 /// any object, get a one-shot collaborator fault armed (`OpKind::ChildFault`).
 pub fn inject_child_faults(scn: &mut Scenario, rng: &mut Rng) {
+  // orphaned clones first (own sub-stream): 40 % of the clone-then-observe ops
+  {
+    let mut r = rng.fork(7);
+    for th in scn.threads.iter_mut() {
+      for op in th.iter_mut() {
+        orphan_clone(&mut op.kind, &mut r);
+      }
+    }
+  }
   if !rng.chance(200) {
     return;
   }
@@ -1341,7 +1353,7 @@ pub fn inject_child_faults(scn: &mut Scenario, rng: &mut Rng) {
         | OpKind::Hash
         | OpKind::UpdateHash => has_user.get(op.obj).copied().unwrap_or(false),
         OpKind::Stream { abort_at: None, .. } => true,
-        OpKind::CloneThen { then } => {
+        OpKind::CloneThen { then, .. } => {
           has_user.get(op.obj).copied().unwrap_or(false)
             && !matches!(**then, OpKind::Stream { abort_at: Some(_), .. })
         }
@@ -1354,6 +1366,29 @@ pub fn inject_child_faults(scn: &mut Scenario, rng: &mut Rng) {
         let then = Box::new(op.kind.clone());
         op.kind = OpKind::ChildFault { at, then };
       }
+    }
+  }
+}
+
+/// Turns a clone-then-observe op into its *orphaned* form in 40 % of the
+/// cases: the observer then runs on a clone of a warmed-up clone whose origin
+/// was dropped (see `OpKind::CloneThen::orphan`).
+pub fn orphan_clone(kind: &mut OpKind, rng: &mut Rng) {
+  if let OpKind::CloneThen { orphan, .. } = kind {
+    if orphan.is_none() && rng.chance(400) {
+      let warm = match rng.below(8) {
+        0 | 1 => OpKind::Source,
+        2 => OpKind::Rope,
+        3 => OpKind::Stream {
+          columns: true,
+          abort_at: None,
+        },
+        4 => OpKind::Map { columns: rng.chance(500) },
+        5 => OpKind::Hash,
+        6 => OpKind::Buffer,
+        _ => OpKind::Size,
+      };
+      *orphan = Some(Box::new(warm));
     }
   }
 }
